@@ -26,6 +26,8 @@ def violation(job, obs):
         return "the source / base file changed"
     if not obs["audio_unchanged"]:
         return "an audio input changed"
+    if obs.get("bystanders_disturbed"):
+        return f"a file other than the destination was changed or removed: {obs['bystanders_disturbed']}"
     if obs["leftovers"]:
         return f"files other than the destination were left behind: {obs['leftovers'][:3]}"
     if (not exists or opt_in) and obs["exc"] is not None and job["dst"] != "same":
